@@ -146,9 +146,31 @@ def meet (x o : SmallRange) : Option SmallRange :=
 /-- `operator&&` : "narrowing is the meet" -/
 def narrow (x o : SmallRange) : Option SmallRange := meet x o
 
-/-- `operator<=` ; `1(V) <= bottom` reaches the `UNREACHABLE_BOTTOM` arm (CRAB_ERROR = `none`).
-    Note `0 <= bottom` answers yes (the `ExactlyZero` arm only excludes `ExactlyOne`/`OneOrMore`). -/
+/-- `operator<=` (after fix 733b6ba: a non-bottom value is not below bottom).  The
+    `UNREACHABLE_BOTTOM` arm of the `ExactlyOne` switch (CRAB_ERROR = `none`) is still in the text
+    but cannot be reached any more (`leq_isSome`). -/
 def leq (x o : SmallRange) : Option Bool :=
+  if x = o then some true
+  else if x.isBottom || o.isTop then some true
+  else if o.isBottom then some false
+  else match x with
+    | zero => match o with | one _ => some false | oneOrMore => some false | _ => some true
+    | one v => match o with
+      | zero => some false
+      | one _ => some false
+      | zeroOrOne w => some (decide (v = w))
+      | zeroOrMore => some true
+      | oneOrMore => some true
+      | bottom => none
+    | zeroOrOne _ => match o with | zeroOrMore => some true | _ => some false
+    | oneOrMore => match o with | zeroOrMore => some true | _ => some false
+    | zeroOrMore => some false
+    | bottom => some true
+
+/-- `operator<=` as it was before fix 733b6ba: `0 <= bottom` answered yes (the `ExactlyZero` arm only
+    excludes `ExactlyOne`/`OneOrMore`) and `1(V) <= bottom` reached the `UNREACHABLE_BOTTOM` arm
+    (CRAB_ERROR = `none`).  Kept only for the counterexample that motivated the fix. -/
+def leqOld (x o : SmallRange) : Option Bool :=
   if x = o then some true
   else if x.isBottom || o.isTop then some true
   else match x with
@@ -166,9 +188,22 @@ def leq (x o : SmallRange) : Option Bool :=
     | bottom => some true
 
 /-- `increment(v)` : v is the variable that received the new reference.
-    `ExactlyZero → ExactlyOne(v)`; `ExactlyOne(v)` incremented with the *same* variable stays
-    `ExactlyOne(v)`; everything else becomes `OneOrMore`; bottom stays bottom. -/
+    `ExactlyZero → ExactlyOne(v)`; everything else becomes `OneOrMore` (also `ExactlyOne(v)`
+    incremented with the same `v`: the overwritten value of `v` is still a counted object);
+    bottom stays bottom. -/
 def increment (x : SmallRange) (v : Nat) : SmallRange :=
+  match x with
+  | bottom => bottom
+  | zero => one v
+  | one _ => oneOrMore
+  | zeroOrOne _ => oneOrMore
+  | zeroOrMore => oneOrMore
+  | oneOrMore => oneOrMore
+
+/-- `increment(v)` as it was before the fix 3175bba ("small_range::increment(v) on 1(v) must
+    count two objects"): `ExactlyOne(v)` incremented with the same `v` stayed `ExactlyOne(v)`.
+    Kept only to state the counterexample that motivated the fix. -/
+def incrementOld (x : SmallRange) (v : Nat) : SmallRange :=
   match x with
   | bottom => bottom
   | zero => one v
